@@ -196,10 +196,12 @@ def gen_settings(rng):
     return out
 
 
-def with_settings(rng, pre):
+def with_settings(rng, pre, style_only=False):
     """put settings steps somewhere into a history (start, end, or in between)"""
     pre = [list(st) for st in pre]
     for st in gen_settings(rng):
+        if style_only and st[1] != "print_style":
+            continue
         pre.insert(rng.choice([0, len(pre), rng.randint(0, len(pre))]), st)
     return pre
 
@@ -472,7 +474,8 @@ def pre_text(pre):
         elif st[0] == "clear":
             out.append("clear_unit_definitions()")
         elif st[0] == "setting":
-            out.append("set_{}({!r})".format(st[1], st[2]))
+            out.append("set_{}({})".format(st[1], "PrintStyle." + st[2][5:] if str(st[2]).startswith(
+                "enum:") else repr(st[2])))
         else:
             out.append("show({}) of a quantity with unit {}".format(
                 st[2], text_of(X.units_from_json(st[1]))))
@@ -755,7 +758,14 @@ def gen_cases(rng, n, arrays_every=4, tags=None):
     for c in cases:
         c = tuple(c) + ((),) * (5 - len(c))
         if rng.random() < 0.33:
-            c = c[:4] + (with_settings(rng, c[4]),)
+            # binary16 powers compute the VALUES in binary16 (see base_value): with other numbers of
+            # significant figures str() of such a value raises OverflowError in the unchanged
+            # library - value formatting, C09's statement, not a unit: print style only there
+            pre = with_settings(rng, c[4], style_only="np.float16" in c[2])
+            if len(pre) == len(c[4]):
+                out.append(c)
+                continue
+            c = c[:4] + (pre,)
             tags["settings unrelated to units in force at the judged print"] += 1
         out.append(c)
     multi = [c for c in out if len(c[0]) >= 3 and not c[4]]
